@@ -1638,11 +1638,60 @@ def s_scatter_all(g):
             raise Bail("static")
         idx = g.i64(np.arange(x.shape[0]).reshape(-1, 1))
     else:
-        s = g.add("Shape", [x], mag=8)
-        n = g.add("Gather", [s, g.const(np.array(0, dtype=np.int64))], mag=8)
+        explicit = g.opset >= 16 and g.rng.random() < 0.6
+        s = g.add("Shape", [x], mag=8, **({"start": 0} if explicit else {}))
+        n = g.add("Gather", [s, g.const(np.array(0, dtype=np.int64))], mag=8, **({"axis": 0} if explicit else {}))
         r = g.add("Range", [g.const(np.array(0, dtype=np.int64)), n, g.const(np.array(1, dtype=np.int64))], mag=8)
         idx = g.add("Unsqueeze", [r, g.i64([-1])], mag=8) if g.opset >= 13 else g.add("Unsqueeze", [r], axes=[1], mag=8)
+        if explicit:
+            g.hit("motif:scatter_all:explicit_attrs")
+            return g.add("ScatterND", [x, idx, upd], reduction="none", mag=max(x.mag, upd.mag))
     return g.add("ScatterND", [x, idx, upd], mag=max(x.mag, upd.mag))
+
+
+def s_scatter_all_shape_start(g):
+    """ScatterND that overwrites the first M rows of data[N, ...] with rows taken from Shape(data, start=k): only part of
+    the tensor is overwritten unless the two dims happen to be equal under the binding."""
+    if g.opset < 16 or g.depth != 0 or len(g.inputs) >= 5:
+        raise Bail("opset")
+    # pairs (a, b) with a >= b under both generation bindings
+    a, b = g.rng.choice([(p, q) for p in SYMS for q in SYMS if p != q and BIND_A[p] >= BIND_A[q] and BIND_B[p] >= BIND_B[q]])
+    form = g.rng.choice(["2d", "3d"])
+    if form == "2d":
+        x = g.new_input(dtype=F32, shape=[a, b])          # data [N, M]
+        u = g.new_input(dtype=F32, shape=[b, b])          # updates [M, M]: rows 0..M-1 of data are overwritten
+        k = 1
+    else:
+        x = g.new_input(dtype=F32, shape=[a, 2, b])
+        u = g.new_input(dtype=F32, shape=[b, 2, b])
+        k = 2
+    if not all(xa.shape[0] >= ua.shape[0] for xa, ua in zip(x.arrs, u.arrs)):
+        raise Bail("generation bindings must give N >= M")
+    g.hit("motif:scatter_all_shape_start")
+    # attributes spelled out the way the redundant-scatter pattern spells them (an attribute constant in a pattern only
+    # matches a node that carries the attribute)
+    s = g.add("Shape", [x], start=k, mag=8)
+    n = g.add("Gather", [s, g.const(np.array(0, dtype=np.int64))], axis=0, mag=8)
+    r = g.add("Range", [g.const(np.array(0, dtype=np.int64)), n, g.const(np.array(1, dtype=np.int64))], mag=8)
+    idx = g.add("Unsqueeze", [r, g.i64([-1])], mag=8)
+    out = g.add("ScatterND", [x, idx, u], reduction="none", mag=max(x.mag, u.mag))
+    g.force_out.append(out)
+    return out
+
+
+def s_expand_as_anonymous(g):
+    """Expand(x, Shape(y)) where x and y are declared with ANONYMOUS leading dims ([?, N] both): nothing says the two
+    unknown dims are equal, so the Expand is not an identity (x may be [1, N] while y is [3, N])."""
+    if g.depth != 0 or len(g.inputs) >= 5:
+        raise Bail("inputs")
+    sym = g.rng.choice(SYMS)
+    tail = g.rng.choice([[sym], [3], [sym, 2]])
+    x = g.new_input(dtype=F32, shape=[None] + tail)
+    y = g.new_input(dtype=F32, shape=[None] + tail)
+    g.hit("motif:expand_as_anonymous")
+    out = g.add("Expand", [x, g.add("Shape", [y], mag=8)], mag=x.mag)
+    g.force_out.append(out)
+    return out
 
 
 def s_matmul_reshape(g):
@@ -1678,7 +1727,7 @@ def s_squeeze_unsqueeze(g):
 
 SYM_MOTIFS = [
     (s_expand_before_binary, 8), (s_reshape_by_shape, 8), (s_slice_by_shape, 5), (s_scatter_all, 3), (s_matmul_reshape, 2),
-    (s_size_range, 2), (s_squeeze_unsqueeze, 2), (s_reshape_roundtrip_repeated, 2), (m_shape_chain, 8), (op_expand, 5), (op_reshape, 4), (op_shape, 3),
+    (s_size_range, 2), (s_squeeze_unsqueeze, 2), (s_reshape_roundtrip_repeated, 2), (s_scatter_all_shape_start, 2), (s_expand_as_anonymous, 2), (m_shape_chain, 8), (op_expand, 5), (op_reshape, 4), (op_shape, 3),
     (op_constant_of_shape, 2), (m_noop_arith, 3), (m_identity_out, 2), (op_gather, 2), (op_concat, 2), (op_slice, 2),
 ]
 SYM_TABLE = [(f, w) for f, w in BASIC_OPS if f not in (op_conv, op_pool, op_sequence, op_topk, op_nonzero)] + SYM_MOTIFS + \
